@@ -90,7 +90,15 @@ static void check_decimal(const char * lit, size_t ll, uint64_t dbits, uint32_t 
     if (gb != dbits) { double w; memcpy(&w, &dbits, 8); snprintf(got, sizeof got, "%.17g (0x%016llx)", r_d, (unsigned long long) gb); snprintf(want, sizeof want, "%.17g (0x%016llx)", w, (unsigned long long) dbits); bad(cls, "SCPI_ParamDouble", lit, ll, got, want); return; }
     if (!send(lit, ll, RD_FLOAT)) { bad(cls, "SCPI_ParamFloat", lit, ll, "not accepted", "a value"); return; }
     memcpy(&gf, &r_f, 4);
-    if (gf != fbits) { float w; memcpy(&w, &fbits, 4); snprintf(got, sizeof got, "%.9g (0x%08x)", (double) r_f, gf); snprintf(want, sizeof want, "%.9g (0x%08x)", (double) w, fbits); bad(cls, "SCPI_ParamFloat", lit, ll, got, want); return; }
+    if (gf != fbits) {
+        float w, viad; double ed; uint32_t vb;
+        memcpy(&w, &fbits, 4); memcpy(&ed, &dbits, 8); viad = (float) ed; memcpy(&vb, &viad, 4);
+        snprintf(got, sizeof got, "%.9g (0x%08x)", (double) r_f, gf); snprintf(want, sizeof want, "%.9g (0x%08x)", (double) w, fbits);
+        /* its own class: exactly the value obtained by rounding the literal to double first and to float afterwards (what a build
+         * without strtof does) - a known finding of the strict C90 configuration, nothing else is filed under it */
+        if (gf == vb) { mc_viol("c04/float/double-rounding-via-strtod", "literal [%s] read with SCPI_ParamFloat: %s, the nearest float is %s; the result equals (float) of the nearest double (rounded twice)", mc_e(lit, ll), got, want); return; }
+        bad(cls, "SCPI_ParamFloat", lit, ll, got, want); return;
+    }
     if (!send(lit, ll, RD_NUMBER)) { bad(cls, "SCPI_ParamNumber", lit, ll, "not accepted", "a value"); return; }
     memcpy(&gb, &r_n.content.value, 8);
     if (gb != dbits || r_n.special || r_n.unit != SCPI_UNIT_NONE || r_n.base != 10) { snprintf(got, sizeof got, "%.17g special=%d unit=%d base=%d", r_n.content.value, (int) r_n.special, (int) r_n.unit, (int) r_n.base); bad(cls, "SCPI_ParamNumber", lit, ll, got, "the same value as SCPI_ParamDouble, no unit, base 10"); return; }
